@@ -32,7 +32,7 @@ ADDED = {
 CHECKS = {
  "C01": ("E1", "model_checking",
    "stateless exhaustive exploration of registration histories (all permutations of all k-subsets of a spec alphabet) on the real router, each accepted table probed with a closed request alphabet against a reference matcher",
-   "Every permutation of every subset (size<=2 over 160/1300 specs, size 3 over 16/40, size 4 over 12) is registered on a fresh real ApiDescription; each accepted table's complete lookup_route matrix (4 methods x 40 paths x 7 versions) must equal RefMatcher/RefRange and be identical across permutations. Exhaustive inside the stated alphabets; nothing outside them.",
+   "Every permutation of every subset (size<=2 over 160/1300 specs, size 3 over 16/40, size 4 over 20) is registered on a fresh real ApiDescription; each accepted table's complete lookup_route matrix (4 methods x 43 paths x 10 versions) must equal RefMatcher/RefRange and be identical across permutations. Exhaustive inside the stated alphabets; nothing outside them.",
    "trusted: rustc, the harness's RefMatcher/RefRange/RefSemver, the 'auto' handler shapes; bound: templates <=2 segments (+wildcard), <=4 endpoints, versions {1,2,3}.0.0",
    "DESIGN.md section 4/C01"),
  "C02": ("E1", "model_checking",
